@@ -3,6 +3,7 @@ EXTENDS ErrorMap, Json
 Emit == pc = "done" =>
   PrintT(<<"VEC", ToJson([space |-> space, table |-> table, call |-> callno, outcome |-> outcome,
      paths |-> [i \in 1..Len(table) |-> Path(i)], decoy |-> Decoy,
-     pred |-> [status |-> status, goaerr |-> goaerr, bodyname |-> bodyname, bodyflags |-> bodyflags, writes |-> writes,
+     known |-> [d \in KnownClientDeviations |-> ClientView({d})],
+     pred |-> [status |-> status, goaerr |-> goaerr, ctype |-> ctype, bodyname |-> bodyname, bodyflags |-> bodyflags, writes |-> writes,
                cname |-> cname, cflags |-> cflags, ckind |-> ckind]])>>)
 =============================================================================
